@@ -243,11 +243,14 @@ class BBAN(common.Base):
                 components[key] = value[: ranges[key].length]
 
             try:
-                return cls.from_components(
+                bban_candidate = cls.from_components(
                     country_code, **{key.value: value for key, value in components.items()}
                 )
             except exceptions.SchwiftyException:
-                pass
+                continue
+            pinned_checksum = values.get(Component.NATIONAL_CHECKSUM_DIGITS)
+            if pinned_checksum is None or bban_candidate.national_checksum_digits == pinned_checksum:
+                return bban_candidate
         else:
             raise exceptions.GenerateRandomOverflowError
 
